@@ -61,6 +61,21 @@ def errorCheck (b : Book R) (cur : R) : Book R × Bool :=
 /-- the bookkeeping a run starts from: `_current_cycle = 1`, `_errors = []`, `_error_diffs = []`. -/
 def Book.fresh : Book R := { cycle := 1, errors := [], diffs := [] }
 
+/-- first differences of a rate history, the first one against `prev` (the code starts from `0`). -/
+def rateDiffs : List R → R → List R
+  | [], _ => []
+  | r :: rs, prev => ar.sub r prev :: rateDiffs rs r
+
+/-- the declarative stop criterion at cycle `k ≥ 1`, read off a reported rate history alone (`false` beyond its end). -/
+def stopAtRates (rates : List R) (k : Nat) : Bool :=
+  match rates[k - 1]? with
+  | none => false
+  | some cur => decide (1 ≤ k) && shouldStop ar cfg (k : Int) (rateDiffs ar (rates.take k) ar.zero) cur
+
+/-- the first cycle of a reported rate history at which a configured criterion holds. -/
+def firstStop (rates : List R) : Option Nat :=
+  ((List.range rates.length).find? (fun i => stopAtRates ar cfg rates (i + 1))).map (· + 1)
+
 end
 
 structure Alg (σ : Type) where
